@@ -353,11 +353,45 @@ def check_chi(chk) -> None:
     chk.expect(pu is not None and py is not None and f.try_fold(pu) == ["A", "G", "DA", "DG"] and f.try_fold(py) == ["C", "U", "T", "DC", "DT"], "chi-bases", ta.where, "purines A/G/DA/DG, pyrimidines C/U/T/DC/DT", "the purine/pyrimidine name lists changed", K(ta, "bases"))
     chi = repo.func(T1, "Residue3D.chi")
     chk.note_function(chi)
-    b0 = chi.node.body[0]
-    ok = isinstance(b0, ast.If) and norm(b0.test) == "self.one_letter_name.upper() in ('A', 'G')" and norm(b0.body[0]) == "return self.__chi_purine()" and isinstance(b0.orelse[0], ast.If) and norm(b0.orelse[0].test) == "self.one_letter_name.upper() in ('C', 'U', 'T')" and norm(b0.orelse[0].body[0]) == "return self.__chi_pyrimidine()"
-    rest = [norm(s) for s in chi.node.body[1:]]
-    ok = ok and rest == ["torsion = self.__chi_purine()", "if math.isnan(torsion):\n    return self.__chi_pyrimidine()", "return torsion"]
-    chk.expect(ok, "chi-dispatch", chi.where, "A/G use the purine definition, C/U/T the pyrimidine one, unknown names try purine first", "Residue3D.chi does not dispatch purine/pyrimidine by base letter (unknown: purine first, then pyrimidine)", K(chi, "dispatch"))
+    # dispatch evaluated for every class of base letter x (which of the two definitions can be evaluated)
+    from sa.blockeval import BlockEval, Unknown
+
+    nan = float("nan")
+
+    class _Self:
+        _folder_stub = True
+
+        def __init__(s2, letter, pu, py):
+            s2.one_letter_name = letter
+            s2._pu, s2._py = pu, py
+            s2.calls = []
+            setattr(s2, "__chi_purine", lambda: (s2.calls.append("pu"), s2._pu)[1])
+            setattr(s2, "__chi_pyrimidine", lambda: (s2.calls.append("py"), s2._py)[1])
+
+    bad = {}
+    try:
+        for letter in ("A", "G", "a", "C", "U", "T", "u", "N", "?"):
+            for pu, py in ((1.25, -2.5), (nan, -2.5), (1.25, nan), (nan, nan)):
+                me = _Self(letter, pu, py)
+                kind, val = BlockEval(repo, T1, {"self": me}).run(chi.node.body)
+                up = letter.upper()
+                want = pu if up in ("A", "G") else (py if up in ("C", "U", "T") else (pu if pu == pu else py))
+                same = (val != val and want != want) or val == want
+                if kind != "return" or not same:
+                    bad[f"{letter}: purine def {'n/a' if pu != pu else 'ok'}, pyrimidine def {'n/a' if py != py else 'ok'}"] = ("purine" if val == 1.25 else "pyrimidine" if val == -2.5 else repr(val))
+        chk.expect(
+            not bad,
+            "chi-dispatch",
+            chi.where,
+            "A/G use the purine definition, C/U/T the pyrimidine one, unknown names the purine definition when it can be evaluated and else the pyrimidine one (9 letters x 4 availability cases evaluated)",
+            "Residue3D.chi picks the wrong definition: " + "; ".join(f"{k} -> {v}" for k, v in list(bad.items())[:3]),
+            K(chi, "dispatch"),
+            found=bad,
+        )
+    except Unknown as ex:
+        chk.error("chi-dispatch", chi.where, f"chi dispatch not evaluable: {ex}")
+    except Exception as ex:
+        chk.violation("chi-dispatch", chi.where, f"chi dispatch raises {type(ex).__name__} ({ex}) for some base letter", K(chi, "dispatch-raises"))
     # backbone torsions of tertiary_v2
     td = None
     for s in ast.walk(ta.node):
